@@ -233,63 +233,10 @@ def check(model, tier):
                     else:
                         run.ok("R07.7", inst)
 
-    # ---- R07.8 the pending materialization name reaches only an immediately upstream transfer
-    run.rule(
-        "R07.8",
-        "materialize_as is handed down only from a Materialization (its own name) and through generic markers; Transfer, "
-        "unary and binary arms recurse with None and report persisted = False (a Transfer reports `materialize_as is not None`)",
-        5,
-    )
-    mat_param = [q for q in f.params if q != "self"][1]
-    for i, p in enumerate(paths):
-        arm = None
-        ia = -1
-        for name in ("Transfer", "Materialization", "MarkerRelation", "UnaryOperationRelation", "BinaryOperationRelation"):
-            j = case_index(p, name, orig)
-            if j >= 0:
-                arm, ia = name, j
-                break
-        if arm is None:
-            continue
-        caps = pattern_captures(p.steps[ia].node.pattern)  # type: ignore[union-attr]
-        name_v = next((n for n, a in caps.items() if a == ("name",)), f"{orig}.name")
-        for j, c in path_calls(p, ia):
-            if call_attr(c) != "_process_recursive":
-                continue
-            a = c.args[1] if len(c.args) > 1 else next((k.value for k in c.keywords if k.arg == mat_param), None)
-            at = src(a) if a is not None else "<missing>"
-            want = {"Transfer": {"None"}, "UnaryOperationRelation": {"None"}, "BinaryOperationRelation": {"None"}, "Materialization": {name_v, f"{orig}.name"}, "MarkerRelation": {mat_param}}[arm]
-            inst = f"{arm}:recurse({mat_param}={at})"
-            if at in want:
-                run.ok("R07.8", inst)
-            else:
-                run.fail(
-                    "R07.8",
-                    inst,
-                    f"the {arm} arm recurses with {mat_param}={at}; expected {sorted(want)}: the name of a pending materialization may only reach a "
-                    "transfer that is immediately upstream of it, otherwise the transfer hook persists the wrong relation under that name",
-                    fi=f,
-                    node=c,
-                )
-        if p.outcome == "return" and isinstance(p.value, ast.Tuple) and len(p.value.elts) == 2:
-            flag = src(p.value.elts[1])
-            inst = f"{arm}:persisted:path{i}"
-            if arm == "Transfer":
-                okf = flag in (f"{mat_param} is not None",)
-            elif arm in ("UnaryOperationRelation",):
-                okf = flag == "False"
-            elif arm == "BinaryOperationRelation":
-                b = env_at(p).get(flag)
-                okf = flag == "False" or (isinstance(b, tuple) and b[0] == "unpack" and isinstance(b[1], ast.Call) and call_attr(b[1]) == "_process_recursive" and b[2] == 1)
-            elif arm == "Materialization":
-                okf = flag == "True"
-            else:
-                b = env_at(p).get(flag)
-                okf = isinstance(b, tuple) and b[0] == "unpack" and b[2] == 1
-            if okf:
-                run.ok("R07.8", inst)
-            else:
-                run.fail("R07.8", inst, f"the {arm} arm reports persisted = `{flag}`", fi=f, node=p.node)
+    from ..rules import processor as processor_rules
+
+    processor_rules.r07_8_materialize_as(ctx)
+    processor_rules.r07_11_operands_processed(ctx)
     payload.r10_3_evaluate_once(ctx)
     optional_rules.r_optional_truthiness(ctx, "R07.9", None, ("_processor.py", "_marker_relation.py", "_relation.py", "iteration/"))
     run.assume("the hooks implemented by the caller evaluate their source truthfully")
